@@ -332,9 +332,17 @@ pub fn mode_is_directory(mode: u32) -> bool {
     mode & S_IFMT == S_IFDIR
 }
 
-#[cfg(unix)]
 pub fn mode_is_link(mode: u32) -> bool {
     mode & S_IFMT == S_IFLNK
+}
+
+pub fn mode_is_regular_file(mode: u32) -> bool {
+    mode & S_IFMT == S_IFREG
+}
+
+/// Whether the mode carries a file type at all (archives written on other systems store only permissions).
+pub fn mode_has_file_type(mode: u32) -> bool {
+    mode & S_IFMT != 0
 }
 
 pub fn is_socket(meta: &Metadata) -> bool {
@@ -371,8 +379,8 @@ const S_IFBLK: u32 = 0o60000;
 const S_IFDIR: u32 = 0o40000;
 const S_IFCHR: u32 = 0o20000;
 const S_IFIFO: u32 = 0o10000;
-#[cfg(unix)]
 const S_IFLNK: u32 = 0o120000;
+const S_IFREG: u32 = 0o100000;
 const S_IFSOCK: u32 = 0o140000;
 
 #[cfg(windows)]
